@@ -7,6 +7,7 @@ domain; find -name/-iname/-path/-lname end to end on files named after the subje
 import ctypes
 import itertools
 import os
+import re
 import tempfile
 
 from lib import framework as fw
@@ -155,6 +156,10 @@ def posix_fnmatch(pieces, s):
     return len(pieces) in reach
 
 
+def same_case_class(a, b):
+    return any(x <= a <= y and x <= b <= y for x, y in (("a", "z"), ("A", "Z"), ("0", "9")))
+
+
 def guarded(p):
     """inside the domain on which the property fixes the answer (see ASSUMPTIONS)"""
     i, n = 0, len(p)
@@ -260,6 +265,7 @@ def run(ctx):
     for (p, ci), i, m in zip(cases, impl, model):
         mt, mcodes = m.split(" ")
         if mt == "unsup":
+            ctx.count((p, ci, "unsup"), False, ["model-has-no-reading"])
             continue
         if i == "panic":
             itext, ibits = "panic", ""
@@ -272,7 +278,11 @@ def run(ctx):
             ctx.cov["evaluations"] += 1
         ctx.count((p, ci), nontriv, ["caseless=%d" % ci, "guarded=%d" % g, "len=%s" % (len(p) if len(p) < 5 else "5+")])
         mexp = "panic" if "2" in mcodes else mcodes
-        if itext != (mtext if "2" not in mcodes else "panic") and not (itext == "panic" and "2" in mcodes):
+        if itext == "panic":
+            # whatever the model says about the text: the test has a value for every pattern
+            bad.append((p, ci, "the implementation panicked", itext, mtext))
+            continue
+        if itext != (mtext if "2" not in mcodes else "panic"):
             bad.append((p, ci, "regex text", itext, mtext))
             continue
         # the model's classes are the ASCII ones; which characters beyond ASCII a locale counts as alphabetic etc. is left open
@@ -282,8 +292,11 @@ def run(ctx):
             k = diff[0]
             bad.append((p, ci, subs[k], ibits[k:k + 1], mcodes[k]))
             continue
-        if ci and ("-" in p or "[:" in p):
-            g = False     # case folding of ranges and classes is not fixed by the property
+        if ci and ("[:" in p or any(not same_case_class(a, b) for a, b in re.findall(r"(.)-(.)", p))):
+            # how a class folds, and what a range means whose end points are not both lower-case letters, both capitals or both digits
+            # ("[.-a]": glibc folds the end points, the engine asks whether some case variant of the subject lies in the range as written),
+            # are not fixed by the property
+            g = False
         if g and itext != "panic":
             pb = p.encode()
             fl = FNM_CASEFOLD if ci else 0
